@@ -152,6 +152,9 @@ def handleE (req : Json) : Except String Json := do
                            | some c => Json.arr #[shapeJ c]),
                     ("can", toJson (canBroadcast s o))])
       pure (Json.mkObj [("bcs", Json.arr out.toArray)])
+  | "rank" =>
+      let ss ← (← req.getObjValAs? (Array Json) "shapes").toList.mapM parseShape
+      pure (Json.mkObj [("rank", Json.arr (ss.map (fun x => optJ (fun (n : Nat) => toJson n) (Shape.maybeRank x))).toArray)])
   | "simple" =>
       -- Shape.from_simple(x).to_simple()
       let ss ← (← req.getObjValAs? (Array Json) "shapes").toList.mapM parseSimple
